@@ -33,7 +33,7 @@ func TestVerifVerifierDifferential(t *testing.T) {
 	}
 	var cases []dc
 	// one batch of ~75 pairs per index; quick: 2 batches per (key, variant) ~ 3 600 pairs
-	per := map[string]int{"plain-1024": 2, "plain-1025": 2, "plain-1026": 1, "plain-1027": 1, "plain-1028": 1, "plain-1029": 1, "plain-1030": 1, "plain-1031": 1, "plain-1536": 2, "plain-2041": 3, "plain-2048": 2, "plain-3072": 2, "plain-4096": 1}
+	per := map[string]int{"plain-1024": 2, "plain-1025": 2, "plain-1026": 1, "plain-1027": 1, "plain-1028": 1, "plain-1029": 1, "plain-1030": 1, "plain-1031": 1, "plain-1536": 2, "plain-2041": 3, "plain-2048": 2, "plain-2048-e7": 1, "plain-2048-e11": 1, "plain-2048-e65539": 1, "plain-3072": 2, "plain-4096": 1}
 	for _, name := range plainKeyNames {
 		k := loadKey(t, name)
 		for _, vi := range variants[:] {
@@ -123,6 +123,14 @@ func TestVerifPartiallyBlindVerifierDifferential(t *testing.T) {
 			cases = append(cases, dc{k, i})
 		}
 	}
+	// the verifier needs no safe primes: also moduli of 3072 and 4096 bits (the
+	// derived public exponent is then longer than 256 octets)
+	for _, name := range []string{"plain-3072", "plain-4096"} {
+		k := loadKey(t, name)
+		for i := 0; i < lib.Scale(1, 40); i++ {
+			cases = append(cases, dc{k, i})
+		}
+	}
 	lib.Par(len(cases), func(ci int) {
 		c := cases[ci]
 		k := c.key
@@ -134,6 +142,24 @@ func TestVerifPartiallyBlindVerifierDifferential(t *testing.T) {
 		ePrime := rsapss.AugmentedExponent(h, k.N, info)
 		dPrime := new(big.Int).ModInverse(ePrime, k.phi)
 		if dPrime == nil {
+			// the derived exponent is not invertible for this key (no safe
+			// primes): no genuine signature exists, arbitrary strings of the
+			// right length are still judged by both verifiers
+			for j := 0; j < 4; j++ {
+				sig := r.Bytes(k.k)
+				sig[0] = byte(j % 2)
+				want := rsapss.Verify(h, k.N, ePrime, hashOf(h, rsapss.EncodeMessageMetadata(msg, info)), sig, h.Size())
+				var err error
+				lib.Count("pbdiff:pairs")
+				lib.Count("pbdiff:class:no-private-exponent")
+				if p := lib.Try("partiallyblindrsa.Verifier.Verify:arbitrary", sig, func() { err = verifier.Verify(msg, info, sig) }); p != nil {
+					lib.Violation("C18:verifier-panics:partiallyblindrsa.Verifier.Verify:arbitrary-signature", monPBDiff, lib.D("rsa_key", k.name, "modulus_bits", k.N.BitLen(), "metadata", info, "sig", sig, "panic", p.Value))
+					return
+				}
+				if (err == nil) != want {
+					lib.Violation("C18:verifier-verdict-differs:partiallyblindrsa.Verifier.Verify:arbitrary-signature", monPBDiff, lib.D("rsa_key", k.name, "sig", sig, "circl_accepts", err == nil, "reference_accepts", want))
+				}
+			}
 			return
 		}
 		hm := func(m []byte) []byte { return hashOf(h, rsapss.EncodeMessageMetadata(m, info)) }
